@@ -467,6 +467,12 @@ fn union_random(out: &mut Shards, rng: &mut Rng, ulgk: u8, lgks: &[u8], n_inputs
             s.uupd(u, src);
             let r = s.utosk(u);
             if rng.chance(1, 3) && !s.dead {
+                // a merged result keeps taking updates (its estimator is ICON on the coupon count)
+                let lgk = s.get(r).lg_k();
+                let more = 12 + rng.below(40) as usize;
+                stream_public(&mut s, rng, r, lgk, more, 17);
+            }
+            if rng.chance(1, 3) && !s.dead {
                 cat.push(r); // merged results become inputs
             }
             if rng.chance(1, 4) {
